@@ -1,7 +1,7 @@
 (* C14 - Firmware validation accepts exactly CRC-consistent completed firmware. Pinned statements only. *)
 From Coq Require Import List NArith Arith.
 Require Import Crc.
-Require Mgr MgrP Slots.
+Require Mgr MgrP Slots Nor CrcTie Consts.
 Import ListNotations.
 
 (* the three-branch prefix-skip loop digests exactly the data-region bytes from offset 68 up to count * size, for every
@@ -38,7 +38,21 @@ Theorem c14_check_gates_mark : forall m u d,
                snd (Mgr.crc_valid m (Mgr.u_fw u) h d1) = Mgr.ROk tt.
 Proof. exact MgrP.check_gates_mark. Qed.
 
+(* tie between the two levels: on a fault-free device whose data region lies inside it, the flash-level routine of the
+   byte-level model (one device read per digested fragment, the skip loop over reads) decides exactly [Crc.crc_valid] of the
+   bytes the region holds, and leaves the medium as it was *)
+Theorem c14_flash_routine_is_list_routine : forall m i h d len,
+  Nor.wf (Mgr.dmem d) -> Mgr.dfail d = None ->
+  (1 <= Slots.hsize h)%N -> (Slots.hcount h <= Consts.MAX_SEGMENTS)%N -> (Slots.hsize h <= Consts.MAX_SEGMENT_SIZE)%N ->
+  (68 <= len)%nat -> (N.to_nat (Slots.hcount h) * N.to_nat (Slots.hsize h) <= len)%nat ->
+  (Mgr.base m i + Consts.DATA_REGION_OFFSET + N.of_nat len <= Mgr.dtotal d)%N ->
+  exists d', Mgr.crc_valid m i h d
+             = (d', if Crc.crc_valid (CrcTie.region d m i len) (N.to_nat (Slots.hsize h)) (N.to_nat (Slots.hcount h)) then Mgr.ROk tt else Mgr.RErr Mgr.MCrc32Mismatch)
+             /\ CrcTie.same_medium d d'.
+Proof. exact CrcTie.crc_valid_on_flash. Qed.
+
 Print Assumptions c14_crc_fed_spec.
+Print Assumptions c14_flash_routine_is_list_routine.
 Print Assumptions c14_crc_valid_spec.
 Print Assumptions c14_check_value.
 Print Assumptions c14_single_bit_detected.
